@@ -22,7 +22,9 @@ per (key, version) winning" is `newestLE (applyWrites mem emitted) = newestLE (a
   normal-mode batch can issue except `DeleteAt`) never clash: no side condition.
 * `C27_managed_dup_counterexample`: the statement without the side condition is false
   (finding F8: `SetEntryAt(k,v1,5); SetEntryAt(k,v2,7); SetEntryAt(k,v3,5); Flush`).
-* `C27_noClash_iff_history`: the side condition in terms of the operation history.
+* `C27_noClash_iff_history` (C27Hist.lean): the side condition in terms of the operation history;
+  `C27_commit_last_wins` (C27Db.lean): the same for one internal transaction of the `Db` model;
+  `C27_normal_latest` (C27Normal.lean): normal mode in user terms (latest read = last operation).
 -/
 namespace Badger
 
